@@ -210,9 +210,13 @@ func runC08(c *core.Ctx) {
 					c.Failf("missing_mapping_accepted", "E[:%d] (complete blocks, no mapping among them, none supplied) decoded without error", cut)
 					return
 				}
-			case missingStats:
-				// documented refusal; either outcome is not a truncation issue
 			default:
+				if missingStats {
+					// bins without any statistics block among the complete blocks: Encode writes the statistics
+					// first, so no boundary cut of a valid encoding is in that state; the property still asks for
+					// the content of the complete blocks
+					c.Count("cut.boundary_with_bins_but_no_statistics", 1)
+				}
 				if err != nil {
 					c.Failf("boundary_cut_rejected", "E[:%d] ends exactly between blocks (%d complete blocks) and a mapping is available, but decoding into %s returned %v", cut, nComplete, target, err)
 					return
